@@ -53,6 +53,16 @@ func Generated() []Prog {
 		"module Outer\n  class Inner\n    def val\n      1\n    end\n  end\nend\nclass Inner\n  def val\n    \"s\"\n  end\nend\no = Outer::Inner.new\ndbtp o.val\ni = Inner.new\ndbtp i.val\n",
 		"class Animal\n  def shared\n    1\n  end\n\n  private\n\n  def hidden\n    2\n  end\nend\nclass Puppy < Animal\n  def use\n    hidden\n    shared\n  end\nend\nc = Puppy.new\nc.use\nc.hidden\nc.shared.zork\n",
 	}
+	extra = append(extra,
+		// cyclic declarations (refused with a diagnostic): mutual include, class/module cycle, superclass cycle
+		"module Mone\n  include Mtwo\n  def aa\n    @w\n  end\nend\nmodule Mtwo\n  include Mone\n  def bb\n    1\n  end\nend\nclass Cyc\n  include Mone\nend\nc = Cyc.new\nc.aa\nc.zork\n",
+		"class Cya\n  include Mcy\n  def aa\n    1\n  end\nend\nmodule Mcy\n  include Cya\n  def bb\n    @q\n  end\nend\nCya.new.bb\nCya.new.zork\n",
+		"class Cyx < Cyy\n  def aa\n    1\n  end\nend\nclass Cyy < Cyx\nend\nCyx.new.aa\nCyy.new.zork\n",
+		// blocks whose parameters are observable, on a union receiver, on merge!, and after an undefined method
+		"cc = 1\nur = cc == 1 ? [1, 2] : {a: \"s\"}\ncc.to_s\nur.each { |v| dbtp v }\ncc.to_s\nur.each do |w|\n  dbtp w\nend\n",
+		"hm = {a: 1}\ngm = {b: 2}\nhm.size\nhm.merge!(gm) { |k, x, y| dbtp x }\nhm.size\nhm.each { |kk, vv| dbtp vv }\n",
+		"ar = [1, \"s\"]\nar.size\nar.nothing_here { |q| dbtp q }\nar.size\nar.each_with_index { |e, i| dbtp e }\n",
+	)
 	for i, s := range extra {
 		out = append(out, Prog{Name: fmt.Sprintf("./g_extra_%d.rb", i), Src: s})
 	}
@@ -63,6 +73,15 @@ func Generated() []Prog {
 		}
 	}
 	return out
+}
+
+// DbpPrograms use the `dbp` debug keyword, whose output renders internal values. They are used by C05
+// only (run-to-run determinism) and kept out of every comparing check.
+func DbpPrograms() []Prog {
+	return []Prog{
+		{Name: "./g_dbp_0.rb", Src: "dbh = {a: 1}\ndbp dbh\n"},
+		{Name: "./g_dbp_1.rb", Src: "dbl = [1, 2].each do |e|\n  e\nend\ndbp dbl\ndbs = \"s\"\ndbp dbs\n"},
+	}
 }
 
 func indent(s string, n int) string {
